@@ -25,7 +25,8 @@ pub struct C11;
 enum Case {
     /// (module, globals to observe, may be executed: well-scoped and inside the defined semantics)
     Source(Module, Vec<String>, bool),
-    Value(MV),
+    /// (value, sharing: 0 = a tree, 1 = one sub-table also stored under a second key, 2 = also inside a sibling)
+    Value(MV, usize),
 }
 
 fn decode(bytes: &[u8]) -> Case {
@@ -50,7 +51,9 @@ fn decode(bytes: &[u8]) -> Case {
         _ => {
             let big = c.chance(40);
             let g = ValGen { allow_nan: false, allow_func: false, max_depth: 4, max_entries: if big { 60 } else { 6 } };
-            Case::Value(g.gen(&mut c, 0))
+            let v = g.gen(&mut c, 0);
+            let share = if c.chance(100) { 1 + c.draw(2) } else { 0 };
+            Case::Value(v, share)
         }
     }
 }
@@ -169,7 +172,7 @@ impl Property for C11 {
         "C11"
     }
     fn rule(&self) -> &'static str {
-        "case = a source module (well-scoped generated program incl. the >16-globals class, or an arbitrary card tree) or a runtime value (nil/int/real incl. -0.0 and subnormals/string/tables nested <=4 with up to 60 entries). Source: json and yaml text -> module' -> compile must give byte-identical bytecode/data and map-equal labels/variables/traces (or the same error variant); the compiled program through json, cbor and bincode must come back field-wise equal as maps, pass the independent bytecode verifier and run to the same observation (outcome, globals, host log). Value: value -> OwnedValue -> json|cbor|bincode -> OwnedValue' -> Vm::insert_value in a fresh VM -> deep equality with the original, order preserving. non-trivial = program with >=2 function labels... precisely: >=17 labels and >=1 global, or a value containing a table with >=9 entries or nesting >=2; distinct by hash of the bytecode / value"
+        "case = a source module (well-scoped generated program incl. the >16-globals class, or an arbitrary card tree) or a runtime value (nil/int/real incl. -0.0 and subnormals/string/tables nested <=4 with up to 60 entries; in 40% of the cases one sub-table object is additionally stored under a second key and inside a sibling table, i.e. shared but acyclic). Source: json and yaml text -> module' -> compile must give byte-identical bytecode/data and map-equal labels/variables/traces (or the same error variant); the compiled program through json, cbor and bincode must come back field-wise equal as maps, pass the independent bytecode verifier and run to the same observation (outcome, globals, host log). Value: value -> OwnedValue -> json|cbor|bincode -> OwnedValue' -> Vm::insert_value in a fresh VM -> deep equality with the original, order preserving. non-trivial = program with >=2 function labels... precisely: >=17 labels and >=1 global, or a value containing a table with >=9 entries or nesting >=2; distinct by hash of the bytecode / value"
     }
     fn assumptions(&self) -> Vec<String> {
         vec!["NaN and infinities are excluded (serde_json cannot represent them); card ids are not part of the serialized form".into()]
@@ -186,7 +189,7 @@ impl Property for C11 {
     fn describe(&self, bytes: &[u8]) -> J {
         match decode(bytes) {
             Case::Source(m, _, _) => json!({"module": serde_json::to_value(&m).unwrap_or(J::Null)}),
-            Case::Value(v) => json!({"value": v.to_json()}),
+            Case::Value(v, share) => json!({"value": v.to_json(), "shared_subtables": share}),
         }
     }
     fn run(&self, bytes: &[u8], _tier: Tier) -> CaseOut {
@@ -290,8 +293,8 @@ impl Property for C11 {
                 let nontrivial = v0.labels.len() >= 17 && !v0.ids.is_empty();
                 CaseOut { verdict: Verdict::Pass, nontrivial, labels, fingerprint: fp, execs }
             }
-            Case::Value(mv) => {
-                let fp = fnv64(format!("{:?}", mv).as_bytes());
+            Case::Value(mv, share) => {
+                let fp = fnv64(format!("{:?}{}", mv, share).as_bytes());
                 let mut labels = vec!["value".to_string()];
                 let mut vm1 = Vm::new(()).expect("vm");
                 vm1.runtime_data = cao_lang::vm::runtime::RuntimeData::new(64 << 20, 256, 256).unwrap();
@@ -299,6 +302,34 @@ impl Property for C11 {
                     Ok(v) => v,
                     Err(e) => return mk("materialize", format!("{:?}", e), fp),
                 };
+                // the same table object reachable twice (acyclic): as a value it is a tree with two
+                // equal sub-trees, and that is what has to come back
+                if share > 0 {
+                    if let Value::Object(top) = v {
+                        let subtables: Vec<Value> = unsafe { top.as_ref() }
+                            .as_table()
+                            .map(|t| t.iter().map(|(_, x)| *x).filter(|x| matches!(x, Value::Object(o) if unsafe { o.as_ref() }.as_table().is_some())).collect())
+                            .unwrap_or_default();
+                        let key = |vm: &mut Vm<()>, s: &str| vm.init_string(s).map(|g| Value::Object(g.into_inner()));
+                        if let Some(first) = subtables.first().copied() {
+                            if let Ok(k) = key(&mut vm1, "alias") {
+                                let mut top = top;
+                                if let Some(t) = unsafe { top.as_mut() }.as_table_mut() {
+                                    if t.insert(k, first).is_ok() {
+                                        labels.push("shared_subtable".into());
+                                    }
+                                }
+                            }
+                            if share > 1 && subtables.len() >= 2 {
+                                if let (Ok(k), Value::Object(mut host)) = (key(&mut vm1, "shared"), subtables[1]) {
+                                    if let Some(t) = unsafe { host.as_mut() }.as_table_mut() {
+                                        let _ = t.insert(k, first);
+                                    }
+                                }
+                            }
+                        }
+                    }
+                }
                 // what the VM holds (duplicate / aliasing keys of the generated literal already merged)
                 let expected = MV::from_value(v);
                 let owned = match OwnedValue::try_from(v) {
